@@ -54,6 +54,7 @@ UNITS = {
             I(RAW, r'^impl ProbeSeq$', 'move_next', impl='ProbeSeq'),
             I(RAW, r'^impl RawTableInner$', 'find_insert_slot', impl='RawTableInner'),
             I(RAW, r'^impl RawTableInner$', 'find_inner', impl='RawTableInner'),
+            I(RAW, r'^impl RawTableInner$', 'find_or_find_insert_slot_inner', impl='RawTableInner'),
         ],
     ),
     'arith': dict(
